@@ -201,6 +201,7 @@ class VQueue:
 
     def __init__(self, maxsize=0):
         self.queue = _Deque(self)
+        self.maxsize = maxsize       # a bounded queue: put() blocks while it is full
         self.cleared = []
         self.mutex = _NoYieldMutex()
         self.name = "q%d" % VQueue._count
@@ -216,8 +217,22 @@ class VQueue:
             s.yield_point(self.name + "." + label, enabled)
 
     def put(self, item, block=True, timeout=None):
-        self._y("put")
-        self.queue.d.append(item)
+        s = SCHED
+        d = self.queue.d
+        full = lambda: self.maxsize > 0 and len(d) >= self.maxsize
+        if s is None or s.me() is None or not self.yielding:
+            if full():
+                raise _realq.Full
+            d.append(item)
+            return
+        while True:
+            s.yield_point(self.name + ".put", lambda: not full())
+            if not full():
+                d.append(item)
+                return
+            if not block:
+                raise _realq.Full
+            # blocked on a full bounded queue: stutter (for ever if nobody drains it)
 
     def get(self, block=True, timeout=None):
         s = SCHED
@@ -265,7 +280,7 @@ class VQueue:
         pass
 
     def put_nowait(self, item):
-        self.put(item)
+        self.put(item, block=False)
 
     def get_nowait(self):
         return self.get(block=False)
